@@ -457,7 +457,8 @@ impl<K: KeyT, V: ValT> MapWorld<K, V> {
         self.note_entry_state(si);
         let mut expect_model = self.slots[si].model.clone();
         let expect = Self::model_entry_chain(&mut expect_model, kid, ks, &methods, &vtoks);
-        let forget_entry = op.c == 1;
+        // leaking a Vacant entry leaks its key; that is only accounted for keys with a serial (or no destructor)
+        let forget_entry = op.c == 1 && (K::HAS_SERIAL || !K::HAS_DROP);
         if forget_entry {
             sim().probe(Probe::LeakEntry);
         }
